@@ -26,8 +26,10 @@ func c08brun(cases []string, obs, oracle *common.Out) {
 	black.SideToMove = types.BLACK
 	tmp := fmt.Sprintf("%s/verif-c08b-%d.out", os.TempDir(), os.Getpid())
 	defer os.Remove(tmp)
-	for _, line := range cases {
+	for i, line := range cases {
 		side, plys, sp := c08parse(line)
+		// a depth limit given together with the clock must not switch the budget off: the budget does not depend on it
+		sp.Depth = []uint8{0, 1, 6, 40}[i%4]
 		pos := white
 		if side == types.BLACK {
 			pos = black
